@@ -233,6 +233,12 @@ def execute(scn, seed, plans=None, snapshots=True, keep=False, stop_after=None, 
                     if isinstance(ev, str) and ev.startswith("@abs-expdir:"):
                         d = _resolve_cwd_token(root, "@expdir:" + ev.split(":", 1)[1])
                         env[ek] = str(root / d) if d else "/nonexistent/outer.task"
+                    elif ev == "@outer-project-out":
+                        # cond started by a task of the ENCLOSING project (a nested invocation): that task's COND_OUT
+                        od = root.parent / "cond-out" / "outer.task"
+                        if (root.parent / "cond_config.toml").exists():
+                            od.mkdir(parents=True, exist_ok=True)
+                        env[ek] = str(od)
                 op["env"] = env
             if op.get("cwd") and not (root / op["cwd"]).is_dir():
                 op["cwd"] = ""      # the drawn directory does not exist (yet): start from the root
@@ -250,6 +256,17 @@ def execute(scn, seed, plans=None, snapshots=True, keep=False, stop_after=None, 
             if st.inv.deadlock is not None and k != "run":
                 raise RuntimeError("simulated deadlock in a command that starts no task (%s): %s"
                                    % (k, st.inv.deadlock))
+            if k == "archive" and op.get("out_rel"):
+                # a relative -o is resolved against the directory the command was started in
+                want = root / (op.get("cwd") or "") / op["out_rel"]
+                st.out_rel = {"expected": str(want), "exists": want.is_file(),
+                              "strays": sorted(str(p_.relative_to(root)) for p_ in root.rglob(os.path.basename(op["out_rel"]))
+                                               if p_ != want)[:3]}
+                for p_ in list(root.rglob(os.path.basename(op["out_rel"]))):
+                    try:
+                        p_.unlink()
+                    except OSError:
+                        pass
             if snapshots:
                 st.after = sim.snapshot(root)
             if st.inv.killed and st.after is not None and isinstance(st.after["rows"], str):
